@@ -3,10 +3,13 @@ package props
 import (
 	"bytes"
 	"fmt"
+	"go/token"
 	"reflect"
 
 	"github.com/dave/dst"
 	"github.com/dave/dst/decorator"
+	"github.com/dave/dst/decorator/resolver/goast"
+	"github.com/dave/dst/decorator/resolver/simple"
 
 	"verif/internal/corpus"
 	"verif/internal/fw"
@@ -305,6 +308,72 @@ func runC06(c *fw.Ctx) {
 				c.Nontrivial("share", sh.name, out)
 			}
 			c.Observe("shared_positions", sh.name)
+		})
+	}
+
+	// (c2) sharing under import management: a path-carrying identifier is restored through the
+	// hand-written selector path
+	impShare := []struct {
+		name string
+		do   func(f *dst.File, clone bool)
+	}{
+		{"qualified Ident in two call statements", func(f *dst.File, cl bool) {
+			b := f.Decls[1].(*dst.FuncDecl).Body
+			id := b.List[0].(*dst.ExprStmt).X.(*dst.CallExpr).Fun
+			b.List = append(b.List, &dst.ExprStmt{X: &dst.CallExpr{Fun: pickNode(id, cl).(dst.Expr)}})
+		}},
+		{"qualified Ident as argument twice", func(f *dst.File, cl bool) {
+			b := f.Decls[1].(*dst.FuncDecl).Body
+			ce := b.List[1].(*dst.ExprStmt).X.(*dst.CallExpr)
+			ce.Args = append(ce.Args, pickNode(ce.Args[0], cl).(dst.Expr))
+		}},
+		{"dot-imported Ident twice", func(f *dst.File, cl bool) {
+			b := f.Decls[1].(*dst.FuncDecl).Body
+			id := &dst.Ident{Name: "Dotted", Path: "x/dot"}
+			b.List = append(b.List, &dst.ExprStmt{X: &dst.CallExpr{Fun: id}}, &dst.ExprStmt{X: &dst.CallExpr{Fun: pickNode(id, cl).(dst.Expr)}})
+		}},
+	}
+	for i, sh := range impShare {
+		if !c.Mine(i) {
+			continue
+		}
+		c.Case("share-imports:"+sh.name, func() {
+			src := "package p\n\nimport \"x/pk\"\n\nfunc f() {\n\tpk.A()\n\tg(pk.B)\n}\n"
+			build := func(cl bool) *dst.File {
+				d := decorator.NewDecoratorWithImports(token.NewFileSet(), "x/self", goast.WithResolver(simple.New(map[string]string{"x/pk": "pk", "x/dot": "dot"})))
+				f, err := d.Parse(src)
+				if err != nil {
+					panic(err)
+				}
+				sh.do(f, cl)
+				return f
+			}
+			restore := func(f *dst.File) (string, string) {
+				r := decorator.NewRestorerWithImports("x/self", simple.New(map[string]string{"x/pk": "pk", "x/dot": "dot"}))
+				fr := r.FileRestorer()
+				fr.Alias["x/dot"] = "."
+				var buf bytes.Buffer
+				var err error
+				if sig, _ := fw.Try(func() { err = fr.Fprint(&buf, f) }); sig != "" {
+					return "", sig
+				}
+				if err != nil {
+					return "", "error: " + err.Error()
+				}
+				return buf.String(), ""
+			}
+			if out, perr := restore(build(false)); perr == "" {
+				c.Violate("shared-node-accepted", "shared-node-accepted:imports:"+sh.name, "a tree with one path-carrying identifier at two places was restored without panic:\n"+out, src)
+			} else {
+				c.Count("shared_rejected", 1)
+			}
+			if out, perr := restore(build(true)); perr != "" {
+				c.Violate("cloned-node-rejected", "cloned-node-rejected:imports:"+sh.name, perr, src)
+			} else {
+				c.Count("cloned_printed", 1)
+				c.Nontrivial("share-imports", sh.name, out)
+			}
+			c.Observe("shared_positions", "imports:"+sh.name)
 		})
 	}
 
